@@ -110,6 +110,11 @@ theorem C20_output_defect_witness :
     wrapOutput ["OSError"] (.raises .NotImplementedError) = some (.crash .NotImplementedError) := by
   decide
 
+/-- … and the clause before the repair of this round let the `OverflowError` of `'%g' % <400-digit count>` through -/
+theorem C20_output_defect_witness2 :
+    wrapOutput ["OSError", "NotImplementedError"] (.raises .OverflowError) = some (.crash .OverflowError) := by
+  decide
+
 /-! non-vacuity: the table has accepting entries, and a kernel that raises is a legal instance -/
 example : expected .frequency .pos = .report ∧ expected .frequency .zero = .diag := by decide
 example : ∀ e, Kernel.raises Exc.OverflowError = .raises e → e ∈ kernelRaises := by
